@@ -2,7 +2,8 @@
 From Coq Require Import List NArith ZArith Bool Lia.
 From Dials Require Import Base.Outcome Base.Runes Reflect.Ty Reflect.Ptrify Reflect.Heap Stack.Overlay
   Copy.DeepCopy Copy.DeepCopySpec Copy.DeepCopyBasics Copy.DeepCopyInv Copy.DeepCopyTerm Copy.Canon
-  Stack.ComposeH Stack.ComposeHProofs Stack.ComposeHShift Stack.History Stack.HistoryProofs.
+  Stack.ComposeH Stack.ComposeHProofs Stack.ComposeHShift Stack.History Stack.HistoryProofs
+  Stack.StackProofs Stack.ComposeHTyping Stack.ComposeHTotal.
 Import ListNotations.
 Open Scope N_scope.
 
@@ -120,4 +121,48 @@ Proof.
     - intros x o Hx Hge Hlt. rewrite Un in Hx by auto. apply (c_region _ _ _ C x o Hx Hge).
     - intros k b [Eq|[]]. inversion Eq; subst. auto. }
   lia.
+Qed.
+
+(* ---- totality: the guard of compose_h_total holds on the example (store typing
+   of the spine: defaults at 0, layers at 3 and 6, the nested struct cell 7, the
+   pointee cells 2 and 4) and compose returns; so the four theorems above apply
+   unconditionally ---- *)
+Definition ex_sub : fields := FCons [81] [] false (TPtr t_i64) FNil.
+Definition ex_typing : styping :=
+  [(0, CStruct ex_fs); (3, CStruct (ptrify_fields ex_fs)); (6, CStruct (ptrify_fields ex_fs));
+   (7, CStruct (ptrify_fields ex_sub)); (2, CCell); (4, CCell)].
+
+Example ex_total_guard : c02_guard ex_heap 8 0 3 [] ex_typing ex_fs 0 [3; 6] = true.
+Proof. vm_compute. reflexivity. Qed.
+
+Theorem compose_h_total_b : forall fuel fs h n0 R D rk S0 d layers,
+  c02_guard h n0 R D rk S0 fs d layers = true -> (copy_fuel n0 R D <= fuel)%nat ->
+  exists h' n' d', compose_h fuel fs h n0 d layers = Done ((h', n'), d').
+Proof. exact compose_h_total_l. Qed.
+
+Lemma c02_guard_parts h n0 R D rk S0 fs d layers : c02_guard h n0 R D rk S0 fs d layers = true ->
+  wf_heapb h n0 = true /\ d <? n0 = true /\ layers_below n0 layers = true.
+Proof.
+  unfold c02_guard. intro G. repeat (apply andb_true_iff in G as [G ?]).
+  split; [auto|split].
+  - unfold root_ok in H0. apply andb_true_iff in H0 as [Q _]. apply andb_true_iff in Q as [Q _]. auto.
+  - unfold layers_below. apply forallb_forall. intros l Hl. rewrite forallb_forall in H. apply H in Hl.
+    unfold root_ok in Hl. apply andb_true_iff in Hl as [Q _]. apply andb_true_iff in Q as [Q _]. auto.
+Qed.
+
+(* the C02 theorems without the "if the call returns" *)
+Theorem compose_snapshot_b : forall fuel fs h n0 R D rk S0 d layers,
+  c02_guard h n0 R D rk S0 fs d layers = true -> (copy_fuel n0 R D <= fuel)%nat ->
+  exists h' n' d', compose_h fuel fs h n0 d layers = Done ((h', n'), d') /\
+    n0 <= d' < n' /\
+    (forall a, reach h' [(RCell, d')] a -> n0 <= a < n' /\ hget h a = None) /\
+    (forall a, a < n0 -> hget h' a = hget h a) /\
+    (forall a o, hget h a = Some o -> hget h' a = Some o).
+Proof.
+  intros fuel fs h n0 R D rk S0 d layers G Hf.
+  destruct (compose_h_total_l _ _ _ _ _ _ _ _ _ _ G Hf) as (h' & n' & d' & E).
+  destruct (c02_guard_parts _ _ _ _ _ _ _ _ _ G) as (G1 & G2 & G3).
+  destruct (compose_fresh_b _ _ _ _ _ _ _ _ _ G1 G2 G3 E) as [F1 F2].
+  destruct (compose_inputs_unchanged_b _ _ _ _ _ _ _ _ _ G1 G2 G3 E) as [U1 U2].
+  exists h', n', d'. auto.
 Qed.
